@@ -326,35 +326,64 @@ func genKey(r *common.Rng, o genOpts, hist func(string)) string {
 	return genString(r, o, hist)
 }
 
-// genDoc generates a document; depth counts container nesting (a scalar has depth 0).
+// genDoc generates a document whose container nesting is exactly depth (a scalar has depth 0): one child
+// of every container on the spine reaches the full depth, the others are shallower at random.
 func genDoc(r *common.Rng, o genOpts, depth int, hist func(string)) any {
-	if depth <= 0 || r.Chance(30) {
+	if depth <= 0 {
 		return genScalar(r, o, hist)
 	}
 	n := 0
 	switch x := r.Intn(10); {
-	case x < 2:
+	case x < 1 && depth == 1:
 		n = 0
-		hist("container:empty")
-	case x < 5:
+	case x < 4:
 		n = 1
 	case x < 8:
 		n = 2 + r.Intn(2)
 	default:
 		n = 4 + r.Intn(3)
 	}
+	if n == 0 {
+		hist("container:empty")
+	}
+	spine := r.Intn(n + 1)
+	child := func(i int) any {
+		if i == spine || (i == 0 && spine >= n) {
+			return genDoc(r, o, depth-1, hist)
+		}
+		d := r.Intn(depth)
+		if r.Chance(50) {
+			d = 0
+		}
+		if d == 1 && r.Chance(30) {
+			// an empty container
+			hist("container:empty")
+			if r.Bool() {
+				return []any{}
+			}
+			return map[string]any{}
+		}
+		return genDoc(r, o, d, hist)
+	}
 	if r.Bool() {
 		hist("container:array")
 		out := make([]any, n)
 		for i := range out {
-			out[i] = genDoc(r, o, depth-1, hist)
+			out[i] = child(i)
 		}
 		return out
 	}
 	hist("container:object")
 	out := map[string]any{}
 	for i := 0; i < n; i++ {
-		out[genKey(r, o, hist)] = genDoc(r, o, depth-1, hist)
+		k := genKey(r, o, hist)
+		for tries := 0; tries < 4; tries++ {
+			if _, dup := out[k]; !dup {
+				break
+			}
+			k = genKey(r, o, hist)
+		}
+		out[k] = child(i)
 	}
 	return out
 }
